@@ -213,8 +213,13 @@ def catalogue(exact):
         # the public operator classes constructed directly
         SM(T(1)), SM(L("int", -4)), mul(SM(L("unsigned", 3)), X(2)),
         sub(D(1), SM(T(2))),
+        # high powers and derivatives inside expressions
+        X(5), X(6), X(7), D(5), D(6), D(7),
+        sub(mul(D(1), X(5)), mul(X(5), D(1))),        # [d/dx, x^5] = 5 x^4
+        mul(D(5), X(5)), add(sc("cE", X(6), T(0)), mul(X(3), X(3))),
+        sc("E-c", mul(D(6), X(7)), L("int", 2)),
     ]
-    return [e for e in c if e.inner_max() <= MAXOUT + 2]
+    return [e for e in c if e.inner_max() <= MAXOUT + 3]
 
 
 def rand_scalar(rng, exact, for_div=False, unsigned_ok=True):
@@ -239,9 +244,9 @@ def rand_expr(rng, depth, exact):
         if r < 0.12:
             return I()
         if r < 0.42:
-            return X(rng.choice([0, 1, 1, 2, 2, 3, 4]))
+            return X(rng.choice([0, 1, 1, 2, 2, 3, 4, 5, 6, 7]))
         if r < 0.72:
-            return D(rng.choice([0, 1, 1, 2, 2, 3, 4]))
+            return D(rng.choice([0, 1, 1, 2, 2, 3, 4, 5, 6, 7]))
         return V(rng.choice([0, 1, 2]))
     r = rng.random()
     if r < 0.34:
